@@ -88,42 +88,35 @@ theorem Slots.empty_sem (cols : Cols) (l : List Row) : ({} : Slots).sem cols l =
   simp [Slots.sem]
 
 
-/-- What a Select returned by `_append_unary_to_select` keeps of the given one's skip target: no
-trivially-true selection appears on its unary spine, and when it is a chain it is either the old skip
-target or the old chain with a projection pushed into both branches by the recursive `apply`. -/
+/-- What a Select returned by `_append_unary_to_select` keeps of the given one's skip target: when it
+is a chain it is either the old skip target or the old chain with a projection pushed into both branches
+by the recursive `apply`. -/
 def SkipOK (st : Store) (fuel : Nat) (S S' : Rel) : Prop :=
-  (S.skipTo.NoTrivSel → S'.skipTo.NoTrivSel) ∧
-  (∀ l r c, S'.skipTo = .binary .chain l r c → S'.skipTo = S.skipTo ∨
+  ∀ l r c, S'.skipTo = .binary .chain l r c → S'.skipTo = S.skipTo ∨
     ∃ pc l0 r0 c0 nl nr, S.skipTo = .binary .chain l0 r0 c0 ∧
       applyOp st fuel (.u (.proj pc)) l0 {} = .ok nl ∧ applyOp st fuel (.u (.proj pc)) r0 {} = .ok nr ∧
-      l = nl.get l0 ∧ r = nr.get r0)
+      l = nl.get l0 ∧ r = nr.get r0
 
 theorem skipOK_same (st : Store) (fuel : Nat) (S S' : Rel) (h : S'.skipTo = S.skipTo) : SkipOK st fuel S S' :=
-  ⟨fun hn => by rw [h]; exact hn, fun _ _ _ _ => Or.inl h⟩
+  fun _ _ _ _ => Or.inl h
 
-theorem skipOK_notChain (st : Store) (fuel : Nat) (S S' : Rel) (hn : S.skipTo.NoTrivSel → S'.skipTo.NoTrivSel)
-    (hc : isChain S'.skipTo = false) : SkipOK st fuel S S' :=
-  ⟨hn, fun l r c h => by rw [h] at hc; cases hc⟩
+theorem skipOK_notChain (st : Store) (fuel : Nat) (S S' : Rel) (hc : isChain S'.skipTo = false) :
+    SkipOK st fuel S S' :=
+  fun l r c h => by rw [h] at hc; cases hc
 
 theorem skipOK_sel (st : Store) (fuel : Nat) (S S' X : Rel) (h : S'.skipTo = X) (hx : X.isSelect = true) :
     SkipOK st fuel S S' :=
-  skipOK_notChain st fuel S S' (fun _ => by rw [h]; exact noTrivSel_of_select X hx)
-    (by rw [h]; exact not_chain_of_select X hx)
+  skipOK_notChain st fuel S S' (by rw [h]; exact not_chain_of_select X hx)
 
 theorem skipOK_nest (st : Store) (fuel : Nat) (S S' : Rel) (op : UOp) (res : Res) (hs : S.isSelect = true)
     (hf : op.finishApply S = .ok res) (h : S'.skipTo = res.get S) : SkipOK st fuel S S' :=
-  skipOK_notChain st fuel S S'
-    (fun _ => by rw [h]; exact finishApply_noTriv S op res (noTrivSel_of_select S hs) hf)
-    (by rw [h]; exact finishApply_select_not_chain op S hs res hf)
+  skipOK_notChain st fuel S S' (by rw [h]; exact finishApply_select_not_chain op S hs res hf)
 
-theorem skipOK_after (st : Store) (fuel : Nat) (S S' : Rel) (op : UOp) (res : Res)
-    (hf : op.finishApply S.skipTo = .ok res) (h : S'.skipTo = res.get S.skipTo)
-    (hnc : ∀ k, res = .new k → isChain k = false) : SkipOK st fuel S S' := by
+theorem skipOK_after (st : Store) (fuel : Nat) (S S' : Rel) (res : Res)
+    (h : S'.skipTo = res.get S.skipTo) (hnc : ∀ k, res = .new k → isChain k = false) : SkipOK st fuel S S' := by
   cases res with
   | same => exact skipOK_same st fuel S S' h
-  | new k =>
-    exact skipOK_notChain st fuel S S'
-      (fun hn => by rw [h]; exact finishApply_noTriv S.skipTo op _ hn hf) (by rw [h]; exact hnc k rfl)
+  | new k => exact skipOK_notChain st fuel S S' (by rw [h]; exact hnc k rfl)
 
 /-- Nesting: the operation is applied on top of the Select, and the result is wrapped in a new
 Select with nothing recorded. -/
@@ -375,7 +368,7 @@ theorem append_sel_sound (σ : Leaves) (st : Store) (fuel : Nat) (p : Pred) (S :
       (fun hc => by rw [hcomp] at hc; cases hc) h
     have hcols : ∀ x, x ∈ (res.get S).skipTo.columns ↔ x ∈ S.skipTo.columns := F.cols
     simp only [Option.getD] at hs
-    refine ⟨⟨ok, ?_, ?_, by rw [ok.engine, F.engine]; exact hS.engine.symm⟩, skipOK_after st fuel S _ _ inner hfi hki (fun k hk' => hnc k (by rw [hfi, hk']))⟩
+    refine ⟨⟨ok, ?_, ?_, by rw [ok.engine, F.engine]; exact hS.engine.symm⟩, skipOK_after st fuel S _ inner hki (fun k hk' => hnc k (by rw [hfi, hk']))⟩
     · rw [ok.sem_eq, hs, Slots.sem_congr _ _ _ hcols, F.sem_eq, hS.sem_eq]
       exact slots_sel S.slots S.skipTo.columns p _ hS.skipRows hS.slotsWF hreq hb.1
     · intro c
@@ -806,7 +799,7 @@ theorem append_calc_sound (σ : Leaves) (st : Store) (fuel : Nat) (tag : Tag) (e
         (fun hc => by rw [hchain] at hc; cases hc) h
       simp only [Option.getD] at hs
       have hcols : ∀ x, x ∈ (res.get S).skipTo.columns ↔ x ∈ S.skipTo.columns.insert tag := F.cols
-      refine ⟨⟨ok, ?_, ?_, by rw [ok.engine, F.engine]; exact hS.engine.symm⟩, skipOK_after st fuel S _ _ inner hfi hki
+      refine ⟨⟨ok, ?_, ?_, by rw [ok.engine, F.engine]; exact hS.engine.symm⟩, skipOK_after st fuel S _ inner hki
         (fun k hk' => finishApply_calc_not_chain tag e _ k (by rw [hfi, hk']))⟩
       · rw [ok.sem_eq, hs, Slots.sem_congr _ _ _ hcols, F.sem_eq, hS.sem_eq]
         apply slots_calc S.slots ({ S.slots with proj := some (S.columns.insert tag) } : Slots)
@@ -827,7 +820,7 @@ theorem append_calc_sound (σ : Leaves) (st : Store) (fuel : Nat) (tag : Tag) (e
         (fun hc => by rw [hchain] at hc; cases hc) h
       simp only [Option.getD] at hs
       have hcols : ∀ x, x ∈ (res.get S).skipTo.columns ↔ x ∈ S.skipTo.columns.insert tag := F.cols
-      refine ⟨⟨ok, ?_, ?_, by rw [ok.engine, F.engine]; exact hS.engine.symm⟩, skipOK_after st fuel S _ _ inner hfi hki
+      refine ⟨⟨ok, ?_, ?_, by rw [ok.engine, F.engine]; exact hS.engine.symm⟩, skipOK_after st fuel S _ inner hki
         (fun k hk' => finishApply_calc_not_chain tag e _ k (by rw [hfi, hk']))⟩
       · rw [ok.sem_eq, hs, Slots.sem_congr _ _ _ hcols, F.sem_eq, hS.sem_eq]
         apply slots_calc S.slots S.slots S.skipTo.columns tag e _ hS.skipRows hS.slotsWF htag hreq rfl rfl rfl rfl
@@ -1081,8 +1074,8 @@ theorem append_proj_sound (σ : Leaves) (st : Store) (fuel : Nat) (c : Cols) (S 
                     fun c1 hc1 => by cases hc1⟩
                 obtain ⟨ok, hk1, hs⟩ := applySkip_selOK σ _ _ r1 hwfk htrk hw (fun _ => rfl) ha
                 simp only [Res.get]
-                refine ⟨⟨ok, ?_, ?_, by rw [ok.engine, hk1, hS.engine, hk]; exact Fl.engine⟩, ⟨fun _ => by rw [hk1]; trivial, fun l' r' c' he => Or.inr ⟨c, l, r, cc, nl, nr, hk, hl, hr, by
-                    rw [hk1] at he; injection he with _ h1 h2 _; exact ⟨h1.symm, h2.symm⟩⟩⟩⟩
+                refine ⟨⟨ok, ?_, ?_, by rw [ok.engine, hk1, hS.engine, hk]; exact Fl.engine⟩, fun l' r' c' he => Or.inr ⟨c, l, r, cc, nl, nr, hk, hl, hr, by
+                    rw [hk1] at he; injection he with _ h1 h2 _; exact ⟨h1.symm, h2.symm⟩⟩⟩
                 · rw [ok.sem_eq, hk1, hs, hS.sem_eq, hk]
                   have hsem : sem σ (Rel.binary .chain (nl.get l) (nr.get r) (nl.get l).columns) =
                       (sem σ (Rel.binary .chain l r cc)).map (fun r => r.restrict c) := by
@@ -1119,13 +1112,11 @@ namespace DafRel
 
 /-- **`_append_unary_to_select` is sound** for each of the seven concrete operations: the Select it
 returns is coherent and has the rows and columns of the operation applied to the given Select.
-`hsel`: the skip target has no trivially-true Selection on its unary spine (so a merged Selection never
-exposes a UNION under a recorded projection).  `hpush`: the projection pushed into the branches of a
+`hpush`: the projection pushed into the branches of a
 UNION does its job there (the recursive call of `apply`; discharged by the induction over the whole
 tree-building recursion in `ConformSound`). -/
 theorem appendUnarySel_sound (σ : Leaves) (st : Store) (fuel : Nat) (op : UOp) (S : Rel) (res : Res)
     (hS : SelOK σ S) (hop : op.wfOn S.columns = true)
-    (hsel : S.skipTo.NoTrivSel)
     (hpush : ∀ c, op = .proj c → ∀ l r cc, S.skipTo = .binary .chain l r cc → ∀ x res', (x = l ∨ x = r) →
       applyOp st fuel (.u (.proj c)) x {} = .ok res' → FinishOK σ (.proj c) x (res'.get x))
     (h : appendUnarySel st (fuel+1) (.u op) S = .ok res) :
@@ -1138,7 +1129,7 @@ theorem appendUnarySel_sound (σ : Leaves) (st : Store) (fuel : Nat) (op : UOp) 
     injection h with h; subst h
     exact ⟨⟨hS, rfl, fun _ => Iff.rfl, rfl⟩, skipOK_same st fuel S _ rfl⟩
   | proj c => exact append_proj_sound σ st fuel c S res hS hop (hpush c rfl) h
-  | sel p => exact append_sel_sound σ st fuel p S res hS hop (fun k hk => sel_finish_not_chain _ p k hsel hk) h
+  | sel p => exact append_sel_sound σ st fuel p S res hS hop (fun k hk => sel_finish_not_chain _ p k hk) h
   | slice a b => exact append_slice_sound σ st fuel a b S res hS h
   | sort ts => exact append_sort_sound σ st fuel ts S res hS hop h
 
